@@ -56,7 +56,7 @@ def build(variant="asan"):
     shutil.rmtree(tmp, ignore_errors=True); os.makedirs(tmp)
     v = VARIANTS[variant]
     cfg = open(os.path.join(REPO, "src", "UriConfig.h.in")).read()
-    ver = re.search(r"VERSION\s+([0-9.]+)", open(os.path.join(REPO, "CMakeLists.txt")).read())
+    ver = re.search(r"project\(\s*uriparser\s+VERSION\s+([0-9.]+)", open(os.path.join(REPO, "CMakeLists.txt")).read(), re.S)
     cfg = cfg.replace("@PROJECT_VERSION@", ver.group(1) if ver else "0").replace("#cmakedefine HAVE_WPRINTF", "#define HAVE_WPRINTF").replace("#cmakedefine HAVE_REALLOCARRAY", "#define HAVE_REALLOCARRAY")
     open(os.path.join(tmp, "UriConfig.h"), "w").write(cfg)
     inc = "-I%s -I%s -I%s" % (os.path.join(REPO, "include"), tmp, os.path.join(REPO, "src"))
